@@ -16,7 +16,7 @@ END_OUTCOMES = {'ok', 'code_listed', 'code_listed2', 'code_unlisted', 'level_lis
 
 
 def gen_cases(ctx):
-    N = ctx.pick(2, 3)
+    N = ctx.pick(3, 4)
     for n in [None] + list(range(0, N + 1)):
         for excs in (('one', 'wide') if n is not None else ('none',)):
             for T in range(0, 4):
@@ -26,7 +26,7 @@ def gen_cases(ctx):
                             for via in ('call', 'send'):
                                 if via == 'send' and (T != 2 or tctx != 'supplied'):
                                     continue
-                                if n is not None and n >= 3 and (T not in (1, 3) or rk == 'notifbatch'):
+                                if n is not None and n >= 4 and (T not in (1, 3) or rk == 'notifbatch'):
                                     continue
                                 yield dict(kind=kind, request=rk, via=via, tracers=T, ctx=tctx, c19=True,
                                            drop=['code_listed2', 'level_listed2', 'exc_listed2', 'exc_sub'],
@@ -131,7 +131,7 @@ def run(ctx):
                 'a notification, KeyboardInterrupt (sync) / CancelledError at the transport await (async)} for retry strategies '
                 'of 0..%d attempts (none, narrow and catch-all exception sets) x 0..3 tracers x {single, batch, notification, '
                 'all-notification batch} x default / caller-supplied trace context x sync/async x call/send. state = one '
-                'complete execution; non-trivial = several attempts with at least one tracer' % ctx.pick(2, 3))
+                'complete execution; non-trivial = several attempts with at least one tracer' % ctx.pick(3, 4))
     ctx.assumptions += ['default trace contexts may differ between attempts; within one attempt all events share one object']
     ctx.run_cases('C19', lambda: gen_cases(ctx), run_case, recheck_every=29)
     c = ctx.rec.counters
